@@ -15,11 +15,26 @@ pub mod native {
         pub static EXHAUSTED: RefCell<bool> = RefCell::new(false);
         /// random-validation mode only: `below(n)` folds its draw into range instead of assuming
         pub static LENIENT: RefCell<bool> = RefCell::new(false);
+        /// the values actually used by the body, in draw order (a folded draw is recorded folded),
+        /// so that an assignment found in random mode can be replayed in strict mode
+        pub static USED: RefCell<Vec<Vec<u8>>> = RefCell::new(Vec::new());
+    }
+    /// replace the record of the last draw by its folded value (`width` bytes, little endian)
+    pub fn patch_last(v: u64, width: usize) {
+        USED.with(|u| {
+            if let Some(last) = u.borrow_mut().last_mut() {
+                *last = v.to_le_bytes()[..width].to_vec();
+            }
+        });
+    }
+    pub fn used() -> Vec<Vec<u8>> {
+        USED.with(|u| u.borrow().clone())
     }
     pub struct AssumeViolated;
     pub fn load(vals: Vec<Vec<u8>>) {
         QUEUE.with(|q| *q.borrow_mut() = vals.into_iter().collect());
         EXHAUSTED.with(|e| *e.borrow_mut() = false);
+        USED.with(|u| u.borrow_mut().clear());
     }
     pub fn pop(n: usize) -> u64 {
         let v = QUEUE.with(|q| q.borrow_mut().pop_front());
@@ -29,6 +44,7 @@ pub mod native {
                 for (i, b) in bytes.iter().take(n.min(8)).enumerate() {
                     x |= (*b as u64) << (8 * i);
                 }
+                USED.with(|u| u.borrow_mut().push(x.to_le_bytes()[..n.min(8)].to_vec()));
                 x
             }
             None => {
@@ -114,7 +130,12 @@ pub fn any_usize() -> usize {
 pub fn below(n: u8) -> u8 {
     let v = any_u8();
     #[cfg(not(kani))]
-    let v = if native::LENIENT.with(|l| *l.borrow()) { v % n } else { v };
+    let v = if native::LENIENT.with(|l| *l.borrow()) {
+        native::patch_last((v % n) as u64, 1);
+        v % n
+    } else {
+        v
+    };
     assume(v < n);
     v
 }
@@ -124,7 +145,12 @@ pub fn below(n: u8) -> u8 {
 pub fn below_u32(n: u32) -> u32 {
     let v = any_u32();
     #[cfg(not(kani))]
-    let v = if native::LENIENT.with(|l| *l.borrow()) { v % n } else { v };
+    let v = if native::LENIENT.with(|l| *l.borrow()) {
+        native::patch_last((v % n) as u64, 4);
+        v % n
+    } else {
+        v
+    };
     assume(v < n);
     v
 }
@@ -134,7 +160,12 @@ pub fn below_u32(n: u32) -> u32 {
 pub fn below_u64(n: u64) -> u64 {
     let v = any_u64();
     #[cfg(not(kani))]
-    let v = if native::LENIENT.with(|l| *l.borrow()) { v % n } else { v };
+    let v = if native::LENIENT.with(|l| *l.borrow()) {
+        native::patch_last(v % n, 8);
+        v % n
+    } else {
+        v
+    };
     assume(v < n);
     v
 }
